@@ -146,6 +146,39 @@ def ancestry(prog):
     return rel
 
 
+def should_run_table(prog):
+    """element name -> should_run_with_tags as documented: the element's own effective tags satisfy the expression,
+    or something inside it should run (scenarios: effective tags only; outlines: own tags or any row)"""
+    expr = prog["cfg"].get("expr")
+    tab = {}
+
+    def sitem(x, anc):
+        if x["kind"] == "scenario":
+            tab["S%d" % x["id"]] = r = eval_expr(expr, set(x["tags"]) | anc)
+            return r
+        rows = []
+        for ei, ex in enumerate(x["examples"]):
+            for k in range(ex["rows"]):
+                name = "O%d -- @%d.%d E%d" % (x["id"], ei + 1, k + 1, ex["id"])
+                tab[name] = eval_expr(expr, set(x["tags"]) | set(ex["tags"]) | anc)
+                rows.append(tab[name])
+        tab["O%d" % x["id"]] = r = eval_expr(expr, set(x["tags"]) | anc) or any(rows)
+        return r
+    for f in prog["features"]:
+        ft = set(f["tags"])
+        inner = []
+        for it in f["items"]:
+            if it["kind"] == "rule":
+                rt = ft | set(it["tags"])
+                sub = [sitem(x, rt) for x in it["items"]]
+                tab["R%d" % it["id"]] = r = eval_expr(expr, rt) or any(sub)
+                inner.append(r)
+            else:
+                inner.append(sitem(it, ft))
+        tab["F%d" % f["id"]] = eval_expr(expr, ft) or any(inner)
+    return tab
+
+
 def oracle(case, obs):
     out = []
     prog = case["prog"]
@@ -162,6 +195,14 @@ def oracle(case, obs):
             if hooks:
                 out.append(("%s run: hooks called in dry-run mode: %s" % (name, hooks[0]), "hooks-in-dry-run"))
             continue
+        # hooks are not called for elements that tag selection excludes
+        sr = should_run_table(prog)
+        for e in hooks:
+            if e[1] in ("before_feature", "after_feature", "before_rule", "after_rule", "before_scenario", "after_scenario") \
+                    and sr.get(e[2]) is False:
+                out.append(("%s run: %s(%s) was called although tag selection excludes %s" % (name, e[1], e[2], e[2]),
+                            "hook-for-excluded-element:" + e[1].split("_")[1]))
+                break
         if all_hooks:
             if hooks and (hooks[0][1] != "before_all" or hooks[-1][1] != "after_all"):
                 out.append(("%s run: before_all/after_all do not bracket the run" % name, "all-hooks-not-outermost"))
